@@ -269,6 +269,13 @@ class Predicates(PredicatesBase, qset[Predicate]):
         # mismatch.
         get = self._lookup.get
         conflicts: dict[Predicate, Predicate]|None = None
+        if len(arriving) > 1:
+            # The arriving predicates must not conflict with each other.
+            coming = {}
+            for pred in arriving:
+                for ref in pred.refs:
+                    if coming.setdefault(ref, pred) != pred:
+                        raise Emsg.ValueConflictFor(pred, pred.spec, coming[ref].spec)
         for pred in arriving:
             for prior in filter(None, map(get, pred.refs)):
                 if prior != pred:
